@@ -184,7 +184,7 @@ const VEH_IDS: &[&str] = &["v1", "v2", "truck", "car_1", "v_3"];
 const PROFILES: &[&str] = &["car", "truck", "bike"];
 
 pub fn gen_cases(rng: &mut Rng, tier: Tier, cases: &mut Vec<Value>) {
-    let n = if tier == Tier::Thorough { 20000 } else { 700 };
+    let n = if tier == Tier::Thorough { 30000 } else { 1500 };
     for i in 0..n {
         // ok: tables inside TablesOk by construction; any: random deviations
         let ok_mode = i % 3 != 2;
